@@ -56,12 +56,31 @@ def handleChain (j : Json) : E Json := do
   | .ok _ => pure (jobj [("ok", jbool true)])
   | .error e => pure (jobj [("ok", jbool false), ("err", jstr (errName e))])
 
+/-- the six approved pairs as the property states them: (key type, size) ↦ algorithm, with the numbers of the enums
+    `KeyType` (RSA = 1, EC = 2) and `Algorithm` (PS256, PS384, PS512, ES256, ES384, ES512 = 1 … 6) -/
+def approvedSigAlg : List ((Nat × Nat) × Nat) :=
+  [((1, 2048), 1), ((1, 3072), 2), ((1, 4096), 3), ((2, 256), 4), ((2, 384), 5), ((2, 521), 6)]
+
 /-- the algorithm tables as functions (C02): hash of an algorithm number, algorithm of a key
     specification, key specification of a key -/
-def handleAlgTable (j : Json) : E Json := do
+def handleAlgTable (j impl : Json) : E Json := do
   match (← fldStr j "q") with
   | "hash" => pure (jobj [("hash", jnat (Algorithm.hash (← fldNat j "alg")))])
-  | "sigalg" => pure (jobj [("alg", jnat (signatureAlgorithm ⟨← fldNat j "type", ← fldNat j "size"⟩))])
+  | "sigalg" =>
+    let t ← fldNat j "type"
+    let s ← fldNat j "size"
+    let model := jobj [("alg", jnat (signatureAlgorithm ⟨t, s⟩))]
+    -- C02 on what the implementation answered: an algorithm for exactly the six pairs, and the right one
+    let want := (approvedSigAlg.lookup (t, s)).getD 0
+    let verdict : Option String := match (impl.getObjVal? "alg").toOption.bind (fun a => a.getNat?.toOption) with
+      | some got =>
+        if got == want then none
+        else if want == 0 then some "algorithm_bound_to_a_key_type_and_size_outside_the_six_approved_pairs"
+        else some "approved_pair_not_bound_to_its_algorithm"
+      | none => none
+    pure (jobj [("model", model), ("spec", match verdict with
+      | none => jobj [("ok", jbool true)]
+      | some cl => jobj [("ok", jbool false), ("clause", jstr cl)])])
   | "keyspec" =>
     match extractKeySpec (← keyOf (← fld j "key")) with
     | some ks => pure (jobj [("ok", jbool true), ("type", jnat ks.type), ("size", jnat ks.size)])
